@@ -386,28 +386,42 @@ type Fault struct {
 	Calls   int
 	Trigger int
 	Panic   bool
-	Log     []string
-	Fired   string
+	// After: the triggering call is carried out first and the panic follows it (a keeper that fails
+	// after it has written, e.g. an overflow check at the end of MintCoins)
+	After bool
+	Log   []string
+	Fired string
 }
 
 func (f *Fault) Reset(trigger int, panicMode bool) {
-	f.Calls, f.Trigger, f.Panic, f.Log, f.Fired = 0, trigger, panicMode, nil, ""
+	f.Calls, f.Trigger, f.Panic, f.After, f.Log, f.Fired = 0, trigger, panicMode, false, nil, ""
+}
+
+// ResetAfter arms a panic that follows the trigger-th keeper call.
+func (f *Fault) ResetAfter(trigger int) {
+	f.Reset(trigger, true)
+	f.After = true
 }
 
 var errInjected = fmt.Errorf("injected fault")
 
-// hit returns an error to inject (or panics) when this call is the trigger.
-func (f *Fault) hit(name string, canErr bool) error {
+// wrap counts the call and, when it is the trigger, injects the fault: an error or a panic instead of
+// the call, or (After) a panic once the call has been carried out.
+func (f *Fault) wrap(name string, canErr bool, call func() error) error {
 	f.Calls++
 	f.Log = append(f.Log, name)
 	if f.Trigger != 0 && f.Calls == f.Trigger {
 		f.Fired = name
+		if f.After {
+			_ = call()
+			panic("injected panic after " + name)
+		}
 		if f.Panic || !canErr {
 			panic("injected panic at " + name)
 		}
 		return errInjected
 	}
-	return nil
+	return call()
 }
 
 type faultBank struct {
@@ -416,42 +430,26 @@ type faultBank struct {
 }
 
 func (b *faultBank) SendCoins(ctx context.Context, from, to sdk.AccAddress, amt sdk.Coins) error {
-	if err := b.f.hit("bank.SendCoins", true); err != nil {
-		return err
-	}
-	return b.BaseKeeper.SendCoins(ctx, from, to, amt)
+	return b.f.wrap("bank.SendCoins", true, func() error { return b.BaseKeeper.SendCoins(ctx, from, to, amt) })
 }
 func (b *faultBank) SendCoinsFromModuleToAccount(ctx context.Context, m string, to sdk.AccAddress, amt sdk.Coins) error {
-	if err := b.f.hit("bank.SendCoinsFromModuleToAccount", true); err != nil {
-		return err
-	}
-	return b.BaseKeeper.SendCoinsFromModuleToAccount(ctx, m, to, amt)
+	return b.f.wrap("bank.SendCoinsFromModuleToAccount", true, func() error { return b.BaseKeeper.SendCoinsFromModuleToAccount(ctx, m, to, amt) })
 }
 func (b *faultBank) SendCoinsFromAccountToModule(ctx context.Context, from sdk.AccAddress, m string, amt sdk.Coins) error {
-	if err := b.f.hit("bank.SendCoinsFromAccountToModule", true); err != nil {
-		return err
-	}
-	return b.BaseKeeper.SendCoinsFromAccountToModule(ctx, from, m, amt)
+	return b.f.wrap("bank.SendCoinsFromAccountToModule", true, func() error { return b.BaseKeeper.SendCoinsFromAccountToModule(ctx, from, m, amt) })
 }
 func (b *faultBank) MintCoins(ctx context.Context, m string, amt sdk.Coins) error {
-	if err := b.f.hit("bank.MintCoins", true); err != nil {
-		return err
-	}
-	return b.BaseKeeper.MintCoins(ctx, m, amt)
+	return b.f.wrap("bank.MintCoins", true, func() error { return b.BaseKeeper.MintCoins(ctx, m, amt) })
 }
 func (b *faultBank) BurnCoins(ctx context.Context, m string, amt sdk.Coins) error {
-	if err := b.f.hit("bank.BurnCoins", true); err != nil {
-		return err
-	}
-	return b.BaseKeeper.BurnCoins(ctx, m, amt)
+	return b.f.wrap("bank.BurnCoins", true, func() error { return b.BaseKeeper.BurnCoins(ctx, m, amt) })
 }
-func (b *faultBank) HasDenomMetaData(ctx context.Context, denom string) bool {
-	_ = b.f.hit("bank.HasDenomMetaData", false)
-	return b.BaseKeeper.HasDenomMetaData(ctx, denom)
+func (b *faultBank) HasDenomMetaData(ctx context.Context, denom string) (has bool) {
+	_ = b.f.wrap("bank.HasDenomMetaData", false, func() error { has = b.BaseKeeper.HasDenomMetaData(ctx, denom); return nil })
+	return has
 }
 func (b *faultBank) SetDenomMetaData(ctx context.Context, md banktypes.Metadata) {
-	_ = b.f.hit("bank.SetDenomMetaData", false)
-	b.BaseKeeper.SetDenomMetaData(ctx, md)
+	_ = b.f.wrap("bank.SetDenomMetaData", false, func() error { b.BaseKeeper.SetDenomMetaData(ctx, md); return nil })
 }
 
 type faultAcc struct {
@@ -459,15 +457,14 @@ type faultAcc struct {
 	f *Fault
 }
 
-func (a *faultAcc) HasAccount(ctx context.Context, addr sdk.AccAddress) bool {
-	_ = a.f.hit("auth.HasAccount", false)
-	return a.AccountKeeper.HasAccount(ctx, addr)
+func (a *faultAcc) HasAccount(ctx context.Context, addr sdk.AccAddress) (has bool) {
+	_ = a.f.wrap("auth.HasAccount", false, func() error { has = a.AccountKeeper.HasAccount(ctx, addr); return nil })
+	return has
 }
-func (a *faultAcc) NewAccountWithAddress(ctx context.Context, addr sdk.AccAddress) sdk.AccountI {
-	_ = a.f.hit("auth.NewAccountWithAddress", false)
-	return a.AccountKeeper.NewAccountWithAddress(ctx, addr)
+func (a *faultAcc) NewAccountWithAddress(ctx context.Context, addr sdk.AccAddress) (acc sdk.AccountI) {
+	_ = a.f.wrap("auth.NewAccountWithAddress", false, func() error { acc = a.AccountKeeper.NewAccountWithAddress(ctx, addr); return nil })
+	return acc
 }
 func (a *faultAcc) SetAccount(ctx context.Context, acc sdk.AccountI) {
-	_ = a.f.hit("auth.SetAccount", false)
-	a.AccountKeeper.SetAccount(ctx, acc)
+	_ = a.f.wrap("auth.SetAccount", false, func() error { a.AccountKeeper.SetAccount(ctx, acc); return nil })
 }
